@@ -107,9 +107,44 @@ def run_general(ctx, fields, what, n_fake, n_real, gen=None, rule="", names_mix=
                 names = "none" not in a2[0]
             one_case(eng, res, sc, a2, opts, explicit, order, fields, what, real=(it >= n_fake), names=names,
                      sample=(it % 37 == 0), packed=(rng.random() < 0.3), pack_refs=(rng.random() < 0.3))
+        wide_cases(eng, res, fields, what, ctx["tier"] == "quick", rng)
     finally:
         eng.close()
     res.assumptions = ["git rev-list is assumed to list exactly the reachable objects, commits before their parents; "
                        "this contract (contract_b) is evaluated on every enumeration used, real or generated",
                        "reference selection for the scenarios uses an independent python statement of the prefix rules"]
     return res
+
+
+def wide_scenario(n, shared=False):
+    """A root tree with n sub-directory entries (distinct one-file sub-trees, or all the same one when shared), plus a
+    second, unrelated commit; n crosses the widths at which a narrowed counter (int8, uint8, int16, uint16) would wrap."""
+    s = S.Scenario()
+    b = s.add({"kind": "blob", "data": b"x"})
+    if shared:
+        sub = s.add({"kind": "tree", "entries": [(0o100644, b"f", b)]})
+        subs = [sub] * n
+    else:
+        subs = [s.add({"kind": "tree", "entries": [(0o100644, b"f%d" % i, b)]}) for i in range(n)]
+    wide = s.add({"kind": "tree", "entries": [(0o40000, b"d%06d" % i, t) for i, t in enumerate(subs)]})
+    root = s.add({"kind": "tree", "entries": [(0o40000, b"wide", wide)]})
+    c1 = s.add({"kind": "commit", "tree": root, "parents": []})
+    other = s.add({"kind": "tree", "entries": [(0o40000, b"only", subs[0])]})
+    c2 = s.add({"kind": "commit", "tree": other, "parents": [], "date": 1000000000})
+    s.refs += [(b"refs/heads/wide", c1), (b"refs/heads/other", c2)]
+    return s.compute()
+
+
+def wide_cases(eng, res, fields, what, quick, rng):
+    """Wide trees under three legal delivery orders (parents before sub-trees, sub-trees first, git-like)."""
+    widths = [127, 128, 129, 255, 256, 257, 300] + ([] if quick else [1000, 32767, 32768, 65535, 65536, 65537])
+    n = 0
+    for w in widths:
+        for shared in ((False,) if w > 300 else (False, True)):
+            sc = wide_scenario(w, shared)
+            roots = [x for _, x in sorted(sc.refs)]
+            for style in ("referrer_first", "referent_first", "gitlike"):
+                order = sc.enum_random(roots, rng, style=style)
+                one_case(eng, res, sc, [], [], [], order, fields, "%s: tree with %d sub-directories (%s, %s)" % (what, w, "shared" if shared else "distinct", style))
+                n += 1
+    res.coverage_extra["wide_tree_cases"] = n
